@@ -1,5 +1,6 @@
 """C04 — tree traversal is structural recursion, at any depth."""
 import ast
+import functools
 import inspect
 import sys
 import threading
@@ -48,22 +49,170 @@ def _callbacks(log):
     return enter, leave
 
 
-def _ref(kids, root):
-    """recursive reference traversal (the property read literally; children order free => we
-    record per-node facts, not the global order)"""
-    facts = {}
+# ---- "all enter/leave callbacks": the same two-argument callback presented as every kind of Python callable that accepts the two
+# positional arguments a traversal passes, (node, parent's value) / (node, children's values). What a callback IS (plain function,
+# variadic recorder, bound method, callable object, partial, decorated wrapper, ...) must not change what it is called with.
+STYLES = ["named", "varargs", "lambda-varargs", "node-rest", "varargs-kwargs", "default", "extra-default", "posonly", "kwargs-tail",
+          "method", "method-varargs", "object", "object-varargs", "classmethod", "staticmethod-varargs",
+          "partial", "partial-kw", "partial-varargs", "wraps-varargs", "wraps-named", "wraps-twice-varargs"]
+_ABSENT = object()
 
-    def go(i, pv):
-        ev = ((7 if pv is None else pv) * 31 + i) % M
-        vals = [go(c, ev) for c in kids.get(i, [])]
+
+def _nid(x):
+    return int(getattr(x, "id", x))
+
+
+def _styled(fn, style, miscalled, absent):
+    """`fn(node, value)` as a callable of kind `style`. Every kind accepts exactly the call `cb(node, value)`; the kinds that would
+    also accept another call note it in `miscalled` as [node, number of positional arguments, keyword names] and carry on with
+    `absent()` in place of the value that was not passed."""
+
+    def call(*args, **kw):
+        if len(args) != 2 or kw:
+            miscalled.append([_nid(args[0]) if args else -1, len(args), sorted(kw)])
+            if len(args) == 1:
+                args = (args[0], absent())
+            args = args[:2]
+        return fn(*args)
+
+    if style == "named":
+        def cb(node, value):
+            return call(node, value)
+        return cb
+    if style == "varargs":
+        def cb(*args):
+            return call(*args)
+        return cb
+    if style == "lambda-varargs":
+        return lambda *a: call(*a)
+    if style == "node-rest":
+        def cb(node, *rest):
+            return call(node, *rest)
+        return cb
+    if style == "varargs-kwargs":
+        def cb(*args, **kwargs):
+            return call(*args, **kwargs)
+        return cb
+    if style == "default":
+        def cb(node, value=_ABSENT):
+            return call(node) if value is _ABSENT else call(node, value)
+        return cb
+    if style == "extra-default":
+        def cb(node, value, extra=_ABSENT):
+            return call(node, value) if extra is _ABSENT else call(node, value, extra)
+        return cb
+    if style == "posonly":
+        def cb(node, value, /):
+            return call(node, value)
+        return cb
+    if style == "kwargs-tail":
+        def cb(node, value, **opts):
+            return call(node, value, **opts)
+        return cb
+    if style in ("method", "method-varargs", "object", "object-varargs", "classmethod", "staticmethod-varargs"):
+        class Recorder:
+            def on(self, node, value):
+                return call(node, value)
+
+            def on_any(self, *args):
+                return call(*args)
+
+            @classmethod
+            def on_cls(cls, node, value):
+                return call(node, value)
+
+            @staticmethod
+            def on_static(*args):
+                return call(*args)
+
+        class Callable2(Recorder):
+            def __call__(self, node, value):
+                return call(node, value)
+
+        class CallableAny(Recorder):
+            def __call__(self, *args):
+                return call(*args)
+
+        return {"method": Recorder().on, "method-varargs": Recorder().on_any, "object": Callable2(), "object-varargs": CallableAny(),
+                "classmethod": Recorder.on_cls, "staticmethod-varargs": Recorder.on_static}[style]
+    if style == "partial":
+        return functools.partial(lambda tag, node, value: call(node, value), "tag")
+    if style == "partial-kw":
+        return functools.partial(lambda node, value, scale=0: call(node, value), scale=1)
+    if style == "partial-varargs":
+        return functools.partial(lambda *a: call(*a[1:]), "tag")
+    if style in ("wraps-varargs", "wraps-named", "wraps-twice-varargs"):
+        if style == "wraps-named":
+            def rec(node, value):
+                return call(node, value)
+        else:
+            def rec(*args):
+                return call(*args)
+
+        def deco(f):
+            @functools.wraps(f)
+            def logged(*a, **k):
+                return f(*a, **k)
+            return logged
+
+        return deco(deco(rec)) if style == "wraps-twice-varargs" else deco(rec)
+    raise ValueError(style)
+
+
+def _ref(kids, root):
+    """reference traversal (the property read literally, evaluated without recursion: parents before children for `enter`,
+    children before parents for `leave`); per-node facts, not the global order"""
+    facts = {}
+    ev = {root: (None, (7 * 31 + root) % M)}          # node -> (value received, value returned) of enter
+    pre, todo = [], [root]
+    while todo:
+        i = todo.pop()
+        pre.append(i)
+        for c in kids.get(i, []):
+            ev[c] = (ev[i][1], (ev[i][1] * 31 + c) % M)
+            todo.append(c)
+    lv = {}
+    for i in reversed(pre):
+        vals = [lv[c] for c in kids.get(i, [])]
         a = i % M
         for k in vals:
             a = (a * 17 + k) % M
-        facts[i] = (pv, vals, a)
-        return a
+        lv[i] = a
+        facts[i] = (ev[i][0], vals, a)
+    return facts, lv[root]
 
-    ret = go(root, None)
-    return facts, ret
+
+def _branch_blocks(rng, n):
+    """ids as a reconstruction writes them: branch after branch, every branch a block of consecutive ids attached to a random node
+    of an earlier branch (siblings end up with ids far apart)"""
+    nb = rng.randint(2, 40)
+    cuts = [1] + sorted(rng.sample(range(2, n), nb - 1)) + [n]
+    p = [-1]
+    for a, b in zip(cuts, cuts[1:]):
+        p.append(0 if a == 1 else rng.randrange(a))
+        p.extend(range(a, b - 1))
+    return p
+
+
+def _large_branched(rng, band, shape, numbering, api):
+    """LARGE trees that are not chains. Node ids and parent ids are 32-bit integers; from 46 341 nodes on the product of two of them
+    no longer fits 31 bits, from 65 536 on not 32: index arithmetic of a traversal must still find every child of every node."""
+    lo, hi = {"2^31": (46341, 65536), "2^32": (80000, 131073), "2^32-low": (65537, 80000)}[band]
+    n = rng.randrange(lo, hi)
+    pids = _branch_blocks(rng, n) if shape == "blocks" else gen.parents_sorted(rng, n, shape)
+    size = [1] * n
+    for i in range(n - 1, 0, -1):
+        size[pids[i]] += size[i]
+    root = 0
+    if rng.random() < 0.5:
+        root = rng.choice([i for i in range(n) if size[i] * 4 >= n])      # a start node that still has a quarter of the tree below it
+    if numbering == "root0":
+        perm = list(range(1, n)); rng.shuffle(perm); perm = [0] + perm
+        new = [0] * n
+        for old, p in enumerate(pids):
+            new[perm[old]] = -1 if p == -1 else perm[p]
+        pids, root = new, perm[root]
+    return {"class": f"large-{band}/{shape}/{numbering}/{api}", "n": n, "pids": pids, "root": root, "api": api, "big": True}
 
 
 class Trav(Suite):
@@ -87,14 +236,17 @@ class Trav(Suite):
                     if inner:
                         root = rng.choice(inner)
                 api = rng.choice(["swc_utils", "tree", "node"])
-                out.append({"class": f"{shape}/{numbering}/{api}", "n": nn, "pids": pids, "root": root, "api": api})
+                # every kind of callable in turn, for enter and (independently) for leave: each kind some 6 times per side in the quick tier
+                out.append({"class": f"{shape}/{numbering}/{api}", "n": nn, "pids": pids, "root": root, "api": api,
+                            "esig": STYLES[k % len(STYLES)], "lsig": STYLES[(5 * k + 2) % len(STYLES)]})
         # small scope, exhaustively: every tree with the root first on up to 4 (5) nodes, every start node, all three entry points in turn
         kk = 0
         for n in range(1, (6 if tier == "thorough" or widen else 5)):
             for pids in gen.all_root0_trees(n):
                 for root in range(n):
                     api = ["swc_utils", "tree", "node"][kk % 3]; kk += 1
-                    out.append({"class": f"all-n{n}/{api}", "n": n, "pids": pids, "root": root, "api": api})
+                    out.append({"class": f"all-n{n}/{api}", "n": n, "pids": pids, "root": root, "api": api,
+                                "esig": STYLES[(kk // 3) % len(STYLES)], "lsig": STYLES[(kk // 3 * 8 + 1) % len(STYLES)]})
         # the tree as it is NOW: traverse, re-parent one node in place through its node handle, traverse again
         for _ in range(8 if tier == "quick" and not widen else 30):
             n = rng.choice([5, 7, 9, 12, 16])
@@ -117,7 +269,7 @@ class Trav(Suite):
             post = list(pre); post[i] = q
             root = rng.choice([0, 0, q, pre[i], i])
             out.append({"class": f"edited/{rng.choice(['tree', 'node'])}", "n": nn, "pids": post, "pre_pids": pre, "edit": [i, q],
-                        "root": root, "api": rng.choice(["tree", "node"])})
+                        "root": root, "api": rng.choice(["tree", "node"]), "esig": rng.choice(STYLES), "lsig": rng.choice(STYLES)})
         # deeply NESTED furcations (a comb: every spine node also carries a tip): depth of the furcation nesting,
         # not only of the chain, must not be bounded by the interpreter's recursion limit
         m = 3000 if tier == "quick" and not widen else 20000
@@ -129,6 +281,16 @@ class Trav(Suite):
             out.append({"class": "deepchain/sorted/tree", "n": 30000, "pids": [-1] + list(range(29999)), "root": 0, "api": "tree", "big": True})
         else:
             out.append({"class": "deepchain/sorted/swc_utils", "n": 20000, "pids": [-1] + list(range(19999)), "root": 0, "api": "swc_utils", "big": True})
+        # LARGE branched trees (see _large_branched): beyond 2^16 nodes with siblings far apart in id, and one in the band before it
+        scattered = ["random", "caterpillar", "highdeg", "stem"]
+        apis = ["swc_utils", "tree", "node"]
+        out.append(_large_branched(rng, "2^32", rng.choice(scattered), "sorted", "swc_utils"))
+        out.append(_large_branched(rng, "2^32", "blocks", "sorted", rng.choice(apis)))
+        out.append(_large_branched(rng, "2^31", rng.choice(scattered + ["blocks"]), rng.choice(["sorted", "root0"]), rng.choice(apis)))
+        if tier == "thorough" or widen:
+            for band in ("2^32", "2^32-low", "2^31"):
+                for shape in scattered + ["blocks", "binary", "star"]:
+                    out.append(_large_branched(rng, band, shape, rng.choice(["sorted", "root0"]), rng.choice(apis)))
         return out
 
     def run(self, case):
@@ -139,8 +301,11 @@ class Trav(Suite):
         p = np.array(pids, dtype=np.int32)
         log = []
         enter, leave = _callbacks(log)
+        miscalled = {"E": [], "L": []}
+        as_enter = lambda f: _styled(f, case.get("esig", "named"), miscalled["E"], lambda: None)
+        as_leave = lambda f: _styled(f, case.get("lsig", "named"), miscalled["L"], list)
         if api == "swc_utils":
-            ret = swc_utils.traverse((ids, p), enter=enter, leave=leave, root=root)
+            ret = swc_utils.traverse((ids, p), enter=as_enter(enter), leave=as_leave(leave), root=root)
         else:
             t = gen.make_tree({"n": n, "pids": case.get("pre_pids", pids), "types": [1] * n, "xyz": [[0, 0, 0]] * n, "r": [1] * n})
             if "pre_pids" in case:
@@ -168,14 +333,14 @@ class Trav(Suite):
                     ks.clear()
                     return (nd, out)
             if api == "tree":
-                ret = t.traverse(enter=e2, leave=l2, root=root)
+                ret = t.traverse(enter=as_enter(e2), leave=as_leave(l2), root=root)
             else:
-                ret = t.node(root).traverse(enter=e2, leave=l2)
+                ret = t.node(root).traverse(enter=as_enter(e2), leave=as_leave(l2))
         if isinstance(ret, tuple):
             ret = ret[1]
-        if case.get("big"):
-            return {"n_log": len(log), "first": log[:2], "last": log[-1], "ret": int(ret)}
         res = {"log": log, "ret": int(ret)}
+        if miscalled["E"] or miscalled["L"]:
+            res["miscalled"] = miscalled
         if api != "swc_utils":
             res["nodeobs"] = nodeobs
         return res
@@ -194,51 +359,81 @@ class Trav(Suite):
         if "exc" in res:
             key = "recursion-limit" if res["exc"] == "RecursionError" else "traverse-raises"
             return [(key, f"traversal raised {res['exc']}: {res.get('msg')}")]
-        if case.get("big"):
-            bad = []
-            if res["n_log"] != 2 * n:
-                bad.append(("call-count", f"{res['n_log']} callback calls on a tree of {n} nodes"))
-            return bad
         kids = {}
         for i, p in enumerate(pids):
             kids.setdefault(p, []).append(i)
         facts, ret = _ref(kids, root)
         log = res["log"]
         out = []
-        ent = [l for l in log if l[0] == "E"]
-        lev = [l for l in log if l[0] == "L"]
-        eids = [int(l[1:].split(":")[0]) for l in ent]
-        lids = [int(l[1:].split(":")[0]) for l in lev]
+        # called with (node, value): a callback that accepts two positional arguments gets two, whatever kind of callable it is
+        mis = res.get("miscalled") or {"E": [], "L": []}
+        for i, k, kw in mis["E"][:1]:
+            out.append(("enter-value", f"enter({i}), a callable of kind '{case.get('esig')}', was called with {k} positional argument(s)"
+                                       f"{' and keywords ' + str(kw) if kw else ''} instead of (node, value returned by its parent's call)"
+                                       f" [{len(mis['E'])} such calls]"))
+        for i, k, kw in mis["L"][:1]:
+            out.append(("leave-values", f"leave({i}), a callable of kind '{case.get('lsig')}', was called with {k} positional argument(s)"
+                                        f"{' and keywords ' + str(kw) if kw else ''} instead of (node, values returned by its children's calls)"
+                                        f" [{len(mis['L'])} such calls]"))
+        if case.get("big") and len(log) != 2 * len(facts):
+            out.append(("call-count", f"{len(log)} callback calls on a subtree of {len(facts)} nodes (tree of {n})"))
+
+        def brief(xs):
+            return f"{xs[:12]}{' … (' + str(len(xs)) + ' in all)' if len(xs) > 12 else ''}"
+
+        ent, lev = [], []                       # (position in the log, node, text of the value received)
+        for k, l in enumerate(log):
+            head, val = l.split(":", 1)
+            (ent if head[0] == "E" else lev).append((k, int(head[1:]), val))
         sub = sorted(facts)
-        if sorted(eids) != sub:
-            out.append(("enter-once", f"enter called on {sorted(eids)}; subtree is {sub}"))
-        if sorted(lids) != sub:
-            out.append(("leave-once", f"leave called on {sorted(lids)}; subtree is {sub}"))
-        pos = {l: k for k, l in enumerate(log)}
-        for l in ent:
-            i = int(l[1:].split(":")[0]); v = l.split(":")[1]
+        eids = sorted(i for _, i, _ in ent)
+        lids = sorted(i for _, i, _ in lev)
+        if eids != sub:
+            if len(sub) > 40:
+                se, ss = set(eids), set(sub)
+                out.append(("enter-once", f"enter called {len(eids)} times on {len(se)} nodes; the subtree has {len(sub)} nodes; "
+                                          f"never entered: {brief(sorted(ss - se))}; outside the subtree: {brief(sorted(se - ss))}"))
+            else:
+                out.append(("enter-once", f"enter called on {eids}; subtree is {sub}"))
+        if lids != sub:
+            if len(sub) > 40:
+                sl, ss = set(lids), set(sub)
+                out.append(("leave-once", f"leave called {len(lids)} times on {len(sl)} nodes; the subtree has {len(sub)} nodes; "
+                                          f"never left: {brief(sorted(ss - sl))}; outside the subtree: {brief(sorted(sl - ss))}"))
+            else:
+                out.append(("leave-once", f"leave called on {lids}; subtree is {sub}"))
+        first_e, first_l = {}, {}
+        for k, i, _ in ent:
+            first_e.setdefault(i, k)
+        for k, i, _ in lev:
+            first_l.setdefault(i, k)
+        more = []
+        for k, i, v in ent:
             if i not in facts:
                 continue
             pv = facts[i][0]
             if v != ("N" if pv is None else str(pv)):
-                out.append(("enter-value", f"enter({i}) got {v}, parent's enter returned {pv}"))
+                more.append(("enter-value", f"enter({i}) got {v}, parent's enter returned {pv}"))
             if i != root:
-                par = pids[i]
-                k = next((k for k, x in enumerate(log) if x.startswith(f"E{par}:")), None)
-                if k is None or k > pos[l]:
-                    out.append(("enter-order", f"enter({i}) before its parent's enter"))
-        for l in lev:
-            i = int(l[1:].split(":")[0])
+                kp = first_e.get(pids[i])
+                if kp is None or kp > k:
+                    more.append(("enter-order", f"enter({i}) before its parent's enter"))
+            if len(more) > 6:
+                break
+        for k, i, got in lev:
             if i not in facts:
                 continue
-            got = l.split(":", 1)[1]
             exp = "[" + ",".join(str(x) for x in facts[i][1]) + "]"
             if got != exp:
-                out.append(("leave-values", f"leave({i}) got {got}, children's values are {exp}"))
+                more.append(("leave-values", f"leave({i}) got {got[:300]}, children's values are {exp[:300]}"))
             for c in kids.get(i, []):
-                k = next((k for k, x in enumerate(log) if x.startswith(f"L{c}:")), None)
-                if k is None or k > pos[l]:
-                    out.append(("leave-order", f"leave({i}) before child {c}"))
+                kc = first_l.get(c)
+                if kc is None or kc > k:
+                    more.append(("leave-order", f"leave({i}) before child {c}"))
+                    break
+            if len(more) > 12:
+                break
+        out += more
         if res["ret"] != ret:
             out.append(("return-value", f"returned {res['ret']}, start node's value is {ret}"))
         ob = res.get("nodeobs") or {"P": {}, "C": {}}
